@@ -14,6 +14,7 @@ From SCC Require Import Base.Sexp Model.RunBase Model.RunCheck.
 From SCC Require Import Model.RunFmt.
 From SCC Require Import Model.RunHeapOps.
 From SCC Require Import Model.RunC01.
+From SCC Require Import Model.RunSizes.
 Open Scope string_scope.
 
 Definition dispatch (cmd : string) (input : string) : string :=
@@ -42,5 +43,6 @@ Definition dispatch (cmd : string) (input : string) : string :=
   | "check" => run_check input
   | "fmt" => run_fmt input
   | "heapops-x86" => run_heapops_x86 input
+  | "sizes" => run_sizes input
   | _ => "BAD - unknown command " ++ cmd ++ nl
   end.
